@@ -156,7 +156,7 @@ CHECKS = {
             dict(name="TestC15KillPoints", quick=dict(timeout=900), thorough=dict(timeout=3400)),
         ]),
     "C06": dict(
-        pkg="c06", level="exploration", bins=["dmap"], helpers=["vserver"],
+        pkg="c06", level="exploration", bins=["dmap", "dcat"], helpers=["vserver"],
         technique="property-based testing (rapid): (a) concurrent delivery of real server-side aggregate messages into the real client-side merge with a spinning reporter, compared with the reference evaluator; (b) the real dmap binary serverless and against fresh server processes under generated file layouts, limits, command shapes, CPU load and hook-placed delays, final CSV compared with the reference evaluator (fixed and grammar-generated queries); hook await actions carve out the schedule subspace free of the known defect, whose signature is recognised in the hook trace elsewhere",
         level_text="Layer 1 releases one goroutine per simulated server at once, each pushing the messages the real server aggregator produced into its own real client aggregator over one shared global group set while a reporter spins, 25 rounds per case; the final CSV must equal the central evaluation. Layer 2 runs the real dmap binary over 1..130 files per server, 0..24 servers, limits below and above the file count, one glob or one command per file, with sleeps at the hooked aggregator / registration / limiter / merge points and CPU hogs; exit 0 within the deadline and totals equal to the central evaluation of all lines. In the clean schedule space two hook await actions let the server know what the client knows (how many files / commands follow), there every failure is a violation; in the free space a failing run must show the known defect's signature in its hook trace.",
         level_note="Schedules are sampled (load, hook delays), not enumerated. Termination is a bounded-response check (120 s, repeated once). The known finding 'aggregator-ends-early' (server cannot know that more files or commands follow) is suppressed only when the trace shows the aggregator's 'no more files' decision before all files were registered, or the session's shutdown before all commands arrived.",
